@@ -171,6 +171,44 @@ chk("C17",
     floors={"quick": {"executions": 20000, "point_loop.errsent": 5000}},
     )
 
+CLIENT_NOTE = "Connection.Connect runs inside a testing/synctest bubble against a scripted http.RoundTripper, so waits of any length are virtual and exact; the monitor reads only what crosses the public boundary (requests seen by the RoundTripper with virtual arrival times, OnRetry arguments, callbacks, Connect's return value)."
+
+chk("C10",
+    level="exploration",
+    technique="reference-model monitor over scripted reconnect histories: each attempt's Last-Event-ID header and request body as seen by a recording http.RoundTripper are compared with a model that interprets every attempt's stream with the independent WHATWG reference (dispatched events only, NUL ids ignored, empty id resets)",
+    level_text="Seeded scripts of 1-12 attempts mixing transport failures, validator rejections, streams with 0-3 events ending cleanly / with a read error / in mid-event / in mid-line (IDs: none, plain, empty, with NUL, long, multi-byte), delivered whole, cut or byte-at-a-time, for every body kind (none, NoBody, re-readable, no GetBody, GetBody failing on the j-th call). The monitor requires header(i) == ID of the last event dispatched before attempt i (absent when empty), the original body bytes on every attempt, and ErrNoGetBody / GetBody's error before any request carries a consumed body.",
+    level_note=CLIENT_NOTE,
+    rule="cases = seeded scripts (attempt outcomes x id values x segmentations x body kinds); non-trivial = at least two attempts were made; distinct = distinct script",
+    assumptions=["the request itself carries no Last-Event-ID header"],
+    nbatch={"quick": 16, "thorough": 16},
+    timeout_s={"quick": 600, "thorough": 3600},
+    floors={"quick": {"connect_executions": 5000, "attempts_observed": 20000}},
+    )
+
+chk("C11",
+    level="fault_enumeration",
+    technique="fault enumeration on the response body and context: for 30 base streams, a clean EOF, a read error and a cancellation are injected after every byte offset (whole and byte-at-a-time delivery, MaxRetries -1/1/3); Connect's return value and attempt count are compared with a model of the script; plus seeded mixed scripts and the same ending checks on sse.Read",
+    level_text="Every prefix of every base stream is served as a response body that ends cleanly, fails with a distinguishable read error, or cancels the request context at that offset; the monitor requires: never nil; ctx.Err() exactly when the context was cancelled (also in mid-line); *ConnectionError wrapping io.EOF / ErrUnexpectedEOF (only for a clean mid-line end) / the read error itself; validator or body-reset errors end Connect at once; attempt counts equal the model. Random scripts add validator verdicts, transport errors, cancellation inside RoundTrip, in the backoff wait and before Connect.",
+    level_note=CLIENT_NOTE,
+    rule="cases = (base stream, prefix length, ending kind) x {whole, bytewise} x MaxRetries {-1,1,3} (exhaustive over the listed bases) + seeded scripts + sse.Read over failing readers; non-trivial = at least two attempts (Connect) or non-empty prefix (Read); distinct = distinct script",
+    assumptions=["when a script makes two reasons true at once both results are accepted"],
+    nbatch={"quick": 16, "thorough": 16},
+    timeout_s={"quick": 600, "thorough": 3600},
+    floors={"quick": {"connect_executions": 10000, "attempts_observed": 20000}},
+    )
+
+chk("C12",
+    level="exploration",
+    technique="reference-schedule monitor in virtual time: OnRetry durations and the virtual arrival time of every attempt at a scripted RoundTripper are compared with an interval-arithmetic model of the documented Backoff schedule (count limit, growth, cap, jitter bounds, reset on success, server retry override, MaxElapsedTime)",
+    level_text="Seeded Backoff configurations (defaults, Jitter -1/0/0.1/0.5/0.99/out of range, Multiplier 1/1.5/2/10/<1, MaxInterval unset/below/above the initial interval, MaxElapsedTime unset/small/large, MaxRetries -1/0/1/3/7) x histories of 1-30 attempt outcomes incl. successful connections that send valid and invalid retry fields and RoundTrips that take virtual time. The monitor checks: OnRetry exactly once per retry at the instant the attempt ended, next attempt exactly d later, d within +-Jitter of the model's base interval (equal for Jitter -1), no retry beyond MaxRetries or MaxElapsedTime, no early stop. Tolerances are arithmetic (1 ns + 1e-12 relative per multiplication).",
+    level_note=CLIENT_NOTE + " Once the real-valued interval exceeds what time.Duration can hold (a 1e12 ms retry after a few growth steps) nothing is judged until the next reset; 'retry: 0' accepts both readings.",
+    rule="cases = seeded (Backoff configuration, attempt history) pairs; non-trivial = at least two attempts; distinct = distinct script",
+    assumptions=["no statistical claim about the jitter distribution, only its bounds"],
+    nbatch={"quick": 16, "thorough": 16},
+    timeout_s={"quick": 600, "thorough": 3600},
+    floors={"quick": {"connect_executions": 5000, "onretry_observed": 30000}},
+    )
+
 not_built = {
 }
 
